@@ -1301,24 +1301,34 @@ example : ∃ g : Cone ℚ, g.pitch = 3 ∧
     rfl, (C19.helical_pitch_period _ _ _ _ ⟨0, 0, 0⟩ ⟨0, 0, 1, 0, 1, 0⟩).1⟩
 
 /-- `transform_system` (no `matrix` argument; used by every geometry constructor to carry the
-default frame along with a given axis / `det_pos_init` / `src_to_det_init`) AS CODED — zero
-tests, the `np.allclose` snap to the identity, and `rotation_matrix_from_to` with all its
-branches — applies a ROTATION to the default vectors, for all inputs on which it does not
-raise: derived detector axes are orthonormal and right-handed like the defaults.  In the
-non-snapped 2-d case the rotation takes the normalised default to the normalised given vector.
+default frame along with a given axis / `det_pos_init` / `src_to_det_init`) AS CODED since
+b998548 — zero tests, the snap to the identity decided on the NORMALISED vectors, and
+`rotation_matrix_from_to` with all its branches — applies a ROTATION to the default vectors,
+for all inputs on which it does not raise: derived detector axes are orthonormal and
+right-handed like the defaults.  Moreover either the snap was taken — then the matrix is the
+identity and the given DIRECTION is within `atol` (`1e-8`), entry by entry, of the default
+direction, whatever the lengths of the vectors — or (2-d) the rotation takes the normalised
+default exactly to the normalised given vector.
 CONDITIONAL on `sqrt` being a square root at the squared norms that are normalised. -/
 theorem C19.transform_system_rotation {K : Type} [Field K] [LinearOrder K] [IsStrictOrderedRing K]
-    (sqrt : K → K) (tol2 atol rtol cpi spi : K) (htol : 0 < tol2)
+    (sqrt : K → K) (tol2 atol cpi spi : K) (htol : 0 < tol2)
     (hpi : cpi * cpi + spi * spi = 1) :
     (∀ (d p : V2 K) (M : M2 K),
       sqrt d.normSq * sqrt d.normSq = d.normSq → sqrt p.normSq * sqrt p.normSq = p.normSq →
-      tsMatrix2 sqrt tol2 atol rtol d p = some M →
-      IsRot2 M ∧ (M = M2.one ∨ M.mulVec (V2.normalize sqrt d) = V2.normalize sqrt p)) ∧
+      tsMatrix2 sqrt tol2 atol d p = some M →
+      IsRot2 M ∧ ((p.normSq = 0 ∧ d.normSq = 0 ∧ M = M2.one) ∨
+        (M = M2.one ∧ absK ((V2.normalize sqrt p).x - (V2.normalize sqrt d).x) ≤ atol
+          ∧ absK ((V2.normalize sqrt p).y - (V2.normalize sqrt d).y) ≤ atol) ∨
+        M.mulVec (V2.normalize sqrt d) = V2.normalize sqrt p)) ∧
     (∀ (d p : V3 K) (M : M3 K),
       sqrt d.normSq * sqrt d.normSq = d.normSq → sqrt p.normSq * sqrt p.normSq = p.normSq →
       sqrt (perp3 (V3.normalize sqrt d)).normSq * sqrt (perp3 (V3.normalize sqrt d)).normSq
         = (perp3 (V3.normalize sqrt d)).normSq →
-      tsMatrix3 sqrt tol2 atol rtol cpi spi d p = some M → IsRot3 M) := by
+      tsMatrix3 sqrt tol2 atol cpi spi d p = some M →
+      IsRot3 M ∧ (tsSnaps3 sqrt atol d p = true → p.normSq ≠ 0 → M = M3.one ∧
+        absK ((V3.normalize sqrt p).x - (V3.normalize sqrt d).x) ≤ atol
+          ∧ absK ((V3.normalize sqrt p).y - (V3.normalize sqrt d).y) ≤ atol
+          ∧ absK ((V3.normalize sqrt p).z - (V3.normalize sqrt d).z) ≤ atol)) := by
   have one2 : IsRot2 (M2.one : M2 K) := by
     constructor
     · ext <;> simp [M2.one, M2.transpose, M2.mul]
@@ -1327,16 +1337,21 @@ theorem C19.transform_system_rotation {K : Type} [Field K] [LinearOrder K] [IsSt
     constructor
     · ext <;> simp [M3.one, M3.transpose, M3.mul]
     · simp [M3.one, M3.det]
+  have cl : ∀ a b : K, closeTo atol 0 a b = true → absK (a - b) ≤ atol := by
+    intro a b h
+    simp only [closeTo, zero_mul, add_zero, Bool.not_eq_eq_eq_not, Bool.not_true,
+      decide_eq_false_iff_not, not_lt] at h
+    exact h
   constructor
   · intro d p M hd hp h
     unfold tsMatrix2 at h
-    split_ifs at h with h00 h0
+    split_ifs at h with h00 h0 h1
     · simp only [Option.some.injEq] at h
-      rw [← h]; exact ⟨one2, Or.inl rfl⟩
-    dsimp only at h
-    split_ifs at h with h1
+      rw [← h]; exact ⟨one2, Or.inl ⟨h00.1, h00.2, rfl⟩⟩
     · simp only [Option.some.injEq] at h
-      rw [← h]; exact ⟨one2, Or.inl rfl⟩
+      rw [← h]
+      simp only [tsSnaps2, Bool.and_eq_true] at h1
+      exact ⟨one2, Or.inr (Or.inl ⟨rfl, cl _ _ h1.1, cl _ _ h1.2⟩)⟩
     · unfold rotFromToCode2 at h
       split_ifs at h with h2
       push Not at h2
@@ -1347,45 +1362,102 @@ theorem C19.transform_system_rotation {K : Type} [Field K] [LinearOrder K] [IsSt
       simp only [Option.some.injEq] at h
       rw [← h]
       have := C19.from_to_maps_2d _ _ hu hv
-      exact ⟨this.2.1, Or.inr this.1⟩
+      exact ⟨this.2.1, Or.inr (Or.inr this.1)⟩
   · intro d p M hd hp hpp h
     unfold tsMatrix3 at h
-    split_ifs at h with h00 h0
+    split_ifs at h with h00 h0 h1
     · simp only [Option.some.injEq] at h
-      rw [← h]; exact one3
-    dsimp only at h
-    split_ifs at h with h1
+      rw [← h]
+      exact ⟨one3, fun _ hp0 => absurd h00.1 hp0⟩
     · simp only [Option.some.injEq] at h
-      rw [← h]; exact one3
-    · exact C19.from_to_code_rotation sqrt tol2 cpi spi d p M htol hpi hd hp hpp h
+      rw [← h]
+      simp only [tsSnaps3, Bool.and_eq_true] at h1
+      exact ⟨one3, fun _ _ => ⟨rfl, cl _ _ h1.1.1, cl _ _ h1.1.2, cl _ _ h1.2⟩⟩
+    · exact ⟨C19.from_to_code_rotation sqrt tol2 cpi spi d p M htol hpi hd hp hpp h,
+        fun hs => absurd hs h1⟩
 
 /-- non-trivial instances: `det_pos_init = (3, 4)` is not snapped: the default frame is
 rotated; `(0, 2)` is a dilation of the default `(0, 1)`: identity. -/
 example : tsMatrix2 (fun s : ℚ => if s = 25 then 5 else if s = 4 then 2 else 1)
-      (1 / 10 ^ 20) (1 / 10 ^ 8) (1 / 10 ^ 5) ⟨0, 1⟩ ⟨3, 4⟩ = some ⟨4 / 5, 3 / 5, -(3 / 5), 4 / 5⟩ ∧
+      (1 / 10 ^ 20) (1 / 10 ^ 8) ⟨0, 1⟩ ⟨3, 4⟩ = some ⟨4 / 5, 3 / 5, -(3 / 5), 4 / 5⟩ ∧
     tsMatrix2 (fun s : ℚ => if s = 25 then 5 else if s = 4 then 2 else 1)
-      (1 / 10 ^ 20) (1 / 10 ^ 8) (1 / 10 ^ 5) ⟨0, 1⟩ ⟨0, 2⟩ = some M2.one := by
+      (1 / 10 ^ 20) (1 / 10 ^ 8) ⟨0, 1⟩ ⟨0, 2⟩ = some M2.one := by
   constructor
-  · simp [tsMatrix2, closeTo, absK, rotFromToCode2, rotFromTo2, perp2, V2.normalize, V2.normSq,
-      V2.dot, V2.smul]
+  · simp [tsMatrix2, tsSnaps2, closeTo, absK, rotFromToCode2, rotFromTo2, perp2, V2.normalize,
+      V2.normSq, V2.dot, V2.smul]
     norm_num
-  · simp [tsMatrix2, closeTo, absK, V2.normSq, V2.dot]
+  · simp [tsMatrix2, tsSnaps2, closeTo, absK, V2.normalize, V2.smul, V2.normSq, V2.dot]
     norm_num
 
-/-- FINDING F19t on the model: the snap of `transform_system` compares with an ABSOLUTE
-tolerance (`np.allclose`, `atol = 1e-8`) that ignores the length of the given vector, so a
-SHORT principal vector is treated as "the default up to dilation" whatever its direction:
-for `src_to_det_init = (3e-9, 4e-9)` (unit direction `(3/5, 4/5)`, 37° off the default
-`(0, 1)`) the default frame is NOT rotated, i.e. the second alternative of
-`C19.transform_system_rotation` genuinely fails there. -/
+/-- What slicing relies on (`__getitem__` of `FanBeamGeometry` / `ConeBeamGeometry` hands the
+STORED, already normalised principal vector back to the constructor, which calls
+`transform_system` again): the matrix `transform_system` derives from the normalised given
+vector `p/‖p‖` is exactly the one it derived from `p` itself — the snap decision and the
+rotation depend on the direction only — whenever `p` is not shorter than the `1e-10` of the
+zero test (`tol2 ≤ ‖p‖²`, `tol2 ≤ 1`) and `sqrt 1 = 1`. -/
+theorem C19.transform_system_renormalised {K : Type} [Field K] [LinearOrder K]
+    [IsStrictOrderedRing K] (sqrt : K → K) (tol2 atol cpi spi : K) (htol : 0 < tol2)
+    (htol1 : tol2 ≤ 1) (h1 : sqrt 1 = 1) :
+    (∀ d p : V2 K, sqrt p.normSq * sqrt p.normSq = p.normSq → tol2 ≤ p.normSq →
+      tsMatrix2 sqrt tol2 atol d (V2.normalize sqrt p) = tsMatrix2 sqrt tol2 atol d p) ∧
+    (∀ d p : V3 K, sqrt p.normSq * sqrt p.normSq = p.normSq → tol2 ≤ p.normSq →
+      tsMatrix3 sqrt tol2 atol cpi spi d (V3.normalize sqrt p)
+        = tsMatrix3 sqrt tol2 atol cpi spi d p) := by
+  constructor
+  · intro d p hp ht
+    have hp0 : p.normSq ≠ 0 := ne_of_gt (lt_of_lt_of_le htol ht)
+    have hu := (C19.normalize_unit sqrt).1 p hp0 hp
+    have hnn : V2.normalize sqrt (V2.normalize sqrt p) = V2.normalize sqrt p := by
+      generalize V2.normalize sqrt p = q at hu
+      obtain ⟨x, y⟩ := q
+      simp only [V2.normalize, hu, h1, V2.smul]
+      ext <;> simp
+    have e1 : ¬ (V2.normalize sqrt p).normSq = 0 := by rw [hu]; exact one_ne_zero
+    have e2 : ¬ (V2.normalize sqrt p).normSq < tol2 := by rw [hu]; exact not_lt.mpr htol1
+    have e3 : ¬ p.normSq < tol2 := not_lt.mpr ht
+    simp only [tsMatrix2, tsSnaps2, rotFromToCode2, hnn, e1, e2, e3, hp0, false_and, false_or,
+      or_false, if_false]
+  · intro d p hp ht
+    have hp0 : p.normSq ≠ 0 := ne_of_gt (lt_of_lt_of_le htol ht)
+    have hu := (C19.normalize_unit sqrt).2 p hp0 hp
+    have hnn : V3.normalize sqrt (V3.normalize sqrt p) = V3.normalize sqrt p := by
+      generalize V3.normalize sqrt p = q at hu
+      obtain ⟨x, y, z⟩ := q
+      simp only [V3.normalize, hu, h1, V3.smul]
+      ext <;> simp
+    have e1 : ¬ (V3.normalize sqrt p).normSq = 0 := by rw [hu]; exact one_ne_zero
+    have e2 : ¬ (V3.normalize sqrt p).normSq < tol2 := by rw [hu]; exact not_lt.mpr htol1
+    have e3 : ¬ p.normSq < tol2 := not_lt.mpr ht
+    simp only [tsMatrix3, tsSnaps3, rotFromToCode3, hnn, e1, e2, e3, hp0, false_and, false_or,
+      or_false, if_false]
+
+/-- instance: `src_to_det_init = (3, 4)` and its stored normalisation `(3/5, 4/5)` give the
+same matrix. -/
+example : tsMatrix2 (fun s : ℚ => if s = 25 then 5 else 1) (1 / 10 ^ 20) (1 / 10 ^ 8) ⟨0, 1⟩
+      (V2.normalize (fun s : ℚ => if s = 25 then 5 else 1) ⟨3, 4⟩)
+    = tsMatrix2 (fun s : ℚ => if s = 25 then 5 else 1) (1 / 10 ^ 20) (1 / 10 ^ 8) ⟨0, 1⟩ ⟨3, 4⟩ :=
+  (C19.transform_system_renormalised (fun s : ℚ => if s = 25 then 5 else 1) (1 / 10 ^ 20)
+    (1 / 10 ^ 8) (-1) 0 (by norm_num) (by norm_num) (by norm_num)).1 ⟨0, 1⟩ ⟨3, 4⟩
+    (by norm_num [V2.normSq, V2.dot]) (by norm_num [V2.normSq, V2.dot])
+
+/-- SENSITIVITY (about the OLD variant `tsMatrix2Old`, the code before the repair b998548,
+former finding F19t; not executed by the driver): the old snap compared the RAW given vector
+with an ABSOLUTE tolerance (`np.allclose`, `atol = 1e-8`) that ignores its length, so a SHORT
+principal vector was treated as "the default up to dilation" whatever its direction: for
+`src_to_det_init = (3e-9, 4e-9)` (unit direction `(3/5, 4/5)`, 37° off the default `(0, 1)`)
+the default frame was NOT rotated — while the code as it is now (`tsMatrix2`) rotates it onto
+the given direction. -/
 theorem C19.transform_system_snap_fails :
     ∃ (sqrt : ℚ → ℚ) (p : V2 ℚ), sqrt p.normSq * sqrt p.normSq = p.normSq ∧
       sqrt (1 : ℚ) = 1 ∧ V2.normalize sqrt p = ⟨3 / 5, 4 / 5⟩ ∧
-      tsMatrix2 sqrt (1 / 10 ^ 20) (1 / 10 ^ 8) (1 / 10 ^ 5) ⟨0, 1⟩ p = some M2.one ∧
-      (M2.one : M2 ℚ).mulVec (V2.normalize sqrt ⟨0, 1⟩) ≠ V2.normalize sqrt p := by
-  refine ⟨fun s => if s = 1 then 1 else 5 / 10 ^ 9, ⟨3 / 10 ^ 9, 4 / 10 ^ 9⟩, ?_, ?_, ?_, ?_, ?_⟩
+      tsMatrix2Old sqrt (1 / 10 ^ 20) (1 / 10 ^ 8) (1 / 10 ^ 5) ⟨0, 1⟩ p = some M2.one ∧
+      (M2.one : M2 ℚ).mulVec (V2.normalize sqrt ⟨0, 1⟩) ≠ V2.normalize sqrt p ∧
+      tsMatrix2 sqrt (1 / 10 ^ 30) (1 / 10 ^ 8) ⟨0, 1⟩ p = some ⟨4 / 5, 3 / 5, -(3 / 5), 4 / 5⟩ := by
+  refine ⟨fun s => if s = 1 then 1 else 5 / 10 ^ 9, ⟨3 / 10 ^ 9, 4 / 10 ^ 9⟩, ?_, ?_, ?_, ?_, ?_, ?_⟩
   · norm_num [V2.normSq, V2.dot]
   · norm_num
   · norm_num [V2.normalize, V2.normSq, V2.dot, V2.smul]
-  · norm_num [tsMatrix2, closeTo, absK, V2.normSq, V2.dot]
+  · norm_num [tsMatrix2Old, closeTo, absK, V2.normSq, V2.dot]
   · norm_num [V2.normalize, V2.normSq, V2.dot, V2.smul, M2.one, M2.mulVec]
+  · norm_num [tsMatrix2, tsSnaps2, closeTo, absK, rotFromToCode2, rotFromTo2, perp2, V2.normalize,
+      V2.normSq, V2.dot, V2.smul]
